@@ -438,7 +438,7 @@ def cut_case(prop, seed, idx, tier):
                 if has_obj:
                     if e.fun is None or not math.isfinite(e.fun):
                         continue
-                    if V <= tol and not near_tol(V, tol) and e.fun < best_f:
+                    if V <= tol and not near_tol(V, tol) and e.fun < best_f and abs(e.fun) < 1e20:
                         if e.idx in ks or cnt < 4:
                             s2 = copy.deepcopy(stmt)
                             s2["options"] = dict(s2.get("options") or {})
